@@ -42,6 +42,8 @@ Correct == pc = "done" =>
              /\ GroupIx = Components(Ms, Policy(sim))
              /\ Cardinality(GroupIx) = Len(groups)
              /\ \A i, j \in DOMAIN groups : i # j => groups[i] \cap groups[j] = {}
+\* the traversal that replaced the loop in the code computes the very same list (same groups, same order)
+SameAsTraversal == pc = "done" => groups = TraversalGroups(Ms, Policy(sim))
 \* groups only ever grow towards the components: every group stays inside one component
 Inside == \A k \in DOMAIN groups : \E c \in Components(Ms, Policy(sim)) : {Ms[i].ix : i \in groups[k]} \subseteq c
 Bounded == passes <= NM
